@@ -1,5 +1,5 @@
 (** No function of Model/Frontends.v can reach [Panic], for any input and any primitives. *)
-From PatVerif Require Import Model.Frontends Proofs.QuicwireP Proofs.CodecsP Proofs.BatchCodecsP Proofs.PadP.
+From PatVerif Require Import Model.Frontends Proofs.QuicwireP Proofs.CodecsP Proofs.BatchCodecsP Proofs.PadP Proofs.AttesterVerifyP.
 From Coq Require Import ZifyN ZifyNat ZifyBool.
 Open Scope N_scope.
 
@@ -194,8 +194,8 @@ Proof.
 Qed.
 
 (** * issuer.Evaluate *)
-Theorem eval3_no_panic_l hpke_open parse_pk sig_verify registered sign_and_seal data :
-  eval3 hpke_open parse_pk sig_verify registered sign_and_seal data <> Panic.
+Theorem eval3_no_panic_l hpke_open cfg kid parse_pk sig_verify registered sign_and_seal data :
+  eval3 hpke_open cfg kid parse_pk sig_verify registered sign_and_seal data <> Panic.
 Proof.
   unfold eval3. destruct (um_req3 _ data) as [[|] r] eqn:U; [|discriminate].
   apply um_req3_inv in U. destruct U as [(Hk & Hn & Hne & Hf & Hs) _].
@@ -218,11 +218,11 @@ Proof.
 Qed.
 
 (** a response is returned only after all of: complete parse, decryption, registered origin, valid signature *)
-Theorem eval3_ok_implies_l hpke_open parse_pk sig_verify registered sign_and_seal data out :
-  eval3 hpke_open parse_pk sig_verify registered sign_and_seal data = Ok out ->
+Theorem eval3_ok_implies_l hpke_open cfg kid parse_pk sig_verify registered sign_and_seal data out :
+  eval3 hpke_open cfg kid parse_pk sig_verify registered sign_and_seal data = Ok out ->
   exists r ir secret,
     um_req3 {| q3_key := []; q3_nkid := []; q3_enc := []; q3_sig := [] |} data = (true, r) /\ data = enc_req3 r /\
-    decrypt_go hpke_open (q3_key r) (q3_enc r) = Ok (ir, secret) /\
+    decrypt_go hpke_open cfg kid (q3_key r) (q3_enc r) = Ok (ir, secret) /\
     (exists name, unpad_go (in_padded ir) = Ok name /\ registered name = true) /\
     parse_pk (q3_key r) = true /\
     sig_verify (q3_key r) (signed_message r) (q3_sig r) = true /\
@@ -230,7 +230,7 @@ Theorem eval3_ok_implies_l hpke_open parse_pk sig_verify registered sign_and_sea
 Proof.
   unfold eval3. destruct (um_req3 _ data) as [[|] r] eqn:U; [|discriminate].
   pose proof (um_req3_inv _ _ _ U) as [_ Hdata].
-  destruct (decrypt_go hpke_open (q3_key r) (q3_enc r)) as [[ir secret]| |] eqn:D; cbn [bind]; try discriminate.
+  destruct (decrypt_go hpke_open cfg kid (q3_key r) (q3_enc r)) as [[ir secret]| |] eqn:D; cbn [bind]; try discriminate.
   cbn [fst snd]. destruct (unpad_go (in_padded ir)) as [name| |] eqn:Un; cbn [bind]; try discriminate.
   destruct (registered name) eqn:R; cbn [negb]; [|discriminate].
   destruct (parse_pk (q3_key r)) eqn:Pk; cbn [negb]; [|discriminate].
@@ -257,4 +257,62 @@ Proof.
   destruct (sig_verify _ _ _); [|discriminate].
   destruct (parse_pk ck); cbn [negb]; [|discriminate].
   destruct (bytes_eqb _ _); cbn [negb]; [|discriminate]. destruct (s ck); discriminate.
+Qed.
+
+Theorem consume_varint_bytes_never_panics_l b : match consume_varint_bytes b with Panic => False | _ => True end.
+Proof. pose proof (consume_varint_bytes_safe_l b) as H. destruct (consume_varint_bytes b) as [[[v n]|]| |]; auto. Qed.
+
+(** * C07: tampering with an accepted request, under idealised integrity hypotheses *)
+Section Tamper.
+  Variable hpke_open : list byte -> list byte -> list byte -> option (list byte * list byte).
+  Variables cfg kid : list byte.
+  Variable parse_pk : list byte -> bool.
+  Variable sig_verify : list byte -> list byte -> list byte -> bool.
+  Variable registered : list byte -> bool.
+  Variable sign_and_seal : req3 -> inner -> list byte -> option (list byte * list byte).
+  Notation ev := (eval3 hpke_open cfg kid parse_pk sig_verify registered sign_and_seal).
+
+  Variable r0 : req3.       (* the honest, accepted request *)
+  (** signature unforgeability, idealised for the request key of r0: the only message/signature pair
+      that verifies under it is the one the honest client produced *)
+  Hypothesis unforgeable : forall msg sig, sig_verify (q3_key r0) msg sig = true ->
+    msg = signed_message r0 /\ sig = q3_sig r0.
+  (** AEAD integrity with associated data, idealised: the honest ciphertext opens under no other request key *)
+  Hypothesis aad_binding : forall key', key' <> q3_key r0 -> length key' = 49%nat ->
+    hpke_open (firstn 32 (q3_enc r0)) (aad cfg kid key') (skipn 32 (q3_enc r0)) = None.
+
+  Theorem tamper_rejected_l data' out :
+    wf_req3 r0 -> ev data' = Ok out ->
+    forall r', um_req3 {| q3_key := []; q3_nkid := []; q3_enc := []; q3_sig := [] |} data' = (true, r') ->
+    (q3_key r' = q3_key r0 \/ q3_enc r' = q3_enc r0) -> data' = enc_req3 r0.
+  Proof.
+    intros W0 Hev r' U Hsingle.
+    destruct (eval3_ok_implies_l _ _ _ _ _ _ _ _ _ Hev) as (r & ir & secret & U' & Hdata & D & _ & Pk & Sv & _).
+    rewrite U in U'. inversion U'; subst r. clear U'.
+    pose proof (um_req3_inv _ _ _ U) as [W' _].
+    destruct W0 as (K0 & N0 & Ne0 & F0 & S0). destruct W' as (K' & N' & Ne' & F' & S').
+    destruct (list_eq_dec Byte.byte_eq_dec (q3_key r') (q3_key r0)) as [Ek|Nk].
+    - rewrite Ek in Sv. destruct (unforgeable _ _ Sv) as [Hm Hs].
+      destruct (signed_message_inj r' r0 K' K0 N' N0 F' F0 Hm) as (E1 & E2 & E3).
+      rewrite Hdata. destruct r', r0; cbn in *; now subst.
+    - destruct Hsingle as [E|E]; [congruence|].
+      exfalso. unfold decrypt_go in D. rewrite E in D.
+      destruct (Nat.ltb (length (q3_enc r0)) 32) eqn:L; [discriminate|]. apply Nat.ltb_ge in L.
+      rewrite slice_ok in D by lia. cbn [bind] in D. rewrite slice_from_ok in D by lia. cbn [bind] in D.
+      replace (32 - 0)%nat with 32%nat in D by lia. change (skipn 0 (q3_enc r0)) with (q3_enc r0) in D.
+      rewrite (aad_binding _ Nk K') in D. discriminate.
+  Qed.
+End Tamper.
+
+Lemma decrypt_binds_l hpke_open cfg kid key ect ir secret :
+  decrypt_go hpke_open cfg kid key ect = Ok (ir, secret) ->
+  (32 <= length ect)%nat /\
+  exists pt, hpke_open (firstn 32 ect) (cfg ++ u16 3 ++ key ++ kid) (skipn 32 ect) = Some (pt, secret) \/
+             (exists s', hpke_open (firstn 32 ect) (cfg ++ u16 3 ++ key ++ kid) (skipn 32 ect) = Some (pt, s')).
+Proof.
+  unfold decrypt_go, aad. destruct (Nat.ltb (length ect) 32) eqn:L; [discriminate|]. apply Nat.ltb_ge in L.
+  rewrite slice_ok by lia. cbn [bind]. rewrite slice_from_ok by lia. cbn [bind].
+  replace (32 - 0)%nat with 32%nat by lia. change (skipn 0 ect) with ect.
+  destruct (hpke_open _ _ _) as [[pt s']|] eqn:H; [|discriminate]. intros _. split; [exact L|].
+  exists pt. right. exists s'. reflexivity.
 Qed.
